@@ -310,6 +310,7 @@ func (in *Interp) resolve(l *LazyV, tag int) {
 		if c > n {
 			arr.Elems[n] = IfaceV{T: in.W.TString, V: ConcStr("<spare>")}
 		}
+		arr.Orig = append([]Value{}, arr.Elems...)
 		iv = IfaceV{T: tt, V: SliceV{Arr: arr, Len: n, Cap: c}}
 	case TObj:
 		keys := spec.Keys
@@ -337,6 +338,7 @@ func (in *Interp) resolve(l *LazyV, tag int) {
 			c.Level = l.Level + 1
 			m.Vals = append(m.Vals, c)
 		}
+		m.OrigKeys, m.OrigVals, m.HasOrig = append([]Value{}, m.Keys...), append([]Value{}, m.Vals...), true
 		iv = IfaceV{T: tt, V: m}
 	case TInt, TInt8, TInt16, TInt32, TInt64, TUint, TUint8, TUint16, TUint32, TUint64:
 		bits, signed, _ := intBits(tt)
@@ -627,8 +629,12 @@ func (in *Interp) concretizeValue(v Value, t types.Type, m map[string]*Term) Tre
 			return Tree{"t": "foreign", "k": tagNames[TStrSlice]}
 		}
 		elems := make([]Tree, x.Len)
+		src := x.Arr.Elems
+		if x.Arr.Orig != nil && len(x.Arr.Orig) == len(x.Arr.Elems) {
+			src = x.Arr.Orig
+		}
 		for i := 0; i < x.Len; i++ {
-			elems[i] = in.concretizeValue(x.Arr.Elems[x.Off+i], nil, m)
+			elems[i] = in.concretizeValue(src[x.Off+i], nil, m)
 		}
 		return Tree{"t": "arr", "v": elems, "spare": x.Cap > x.Len}
 	case *MapV:
@@ -638,9 +644,13 @@ func (in *Interp) concretizeValue(v Value, t types.Type, m map[string]*Term) Tre
 		var ks []string
 		var vs []Tree
 		if x != nil {
-			for i, k := range x.Keys {
+			keys, vals := x.Keys, x.Vals
+			if x.HasOrig {
+				keys, vals = x.OrigKeys, x.OrigVals
+			}
+			for i, k := range keys {
 				ks = append(ks, string(strConcrete(k.(*StrV), m)))
-				vs = append(vs, in.concretizeValue(x.Vals[i], nil, m))
+				vs = append(vs, in.concretizeValue(vals[i], nil, m))
 			}
 		}
 		if ks == nil {
